@@ -6,7 +6,8 @@ From stdpp Require Import gmap list.
 From RecordUpdate Require Import RecordSet.
 Import RecordSetNotations.
 From Coq Require Import Lia.
-From Aldrin Require Import gen.BrokerConsts Broker.Model Broker.ChannelProofs Broker.ChannelStep.
+From Aldrin Require Import gen.BrokerConsts gen.ClientConsts Broker.Model Broker.ChannelProofs Broker.ChannelStep
+  Proto.Credit Proto.CreditProofs.
 Local Open Scope N_scope.
 
 (* for EVERY sequence of operations on a channel, by any connections: no unreachable!()/
@@ -107,4 +108,138 @@ Proof.
   intros ops r. split.
   - unfold ops. repeat (apply Forall_cons; split; [first [exact I | (vm_compute; intros H; discriminate H)]|]). constructor.
   - vm_compute. auto.
+Qed.
+
+(* ================================================================ end to end (client level)
+   Proto/Credit.v: ONE established channel with the real shape of both clients — the `Sender`
+   (capacity, the capacity_added stream drained by BOTH poll_send_ready and poll_receiver_closed),
+   the `Receiver` (cur/max capacity, low-water mark 4, item queue), each client's map entry, four
+   FIFO links, and the broker's entry driven through chan_send_item / chan_add_capacity /
+   chan_close_result / chan_close above.  [wrun cS cR (winit cS cR cap) sch] = the state after the
+   schedule [sch] (any interleaving of: send v, poll_send_ready, poll_receiver_closed, recv,
+   close/drop of either end, the broker handling the next message of either connection, either
+   client handling its next message), for owners cS, cR (possibly the same connection) and any
+   receiver capacity 1 <= cap <= u32::MAX. *)
+
+Theorem C05_client_low_water_mark : CLIENT_LOW = 4.
+Proof. exact client_low_val. Qed.
+Print Assumptions C05_client_low_water_mark.
+
+(* for EVERY schedule: the broker's Channel::send_item never returns CapacityExhausted for this
+   sender ([f_cut]), Channel::add_capacity never AddCapacityError ([f_ovf]), no debug_assert!/
+   unreachable!/u32-overflow site of channel.rs, established.rs, client.rs is reached ([f_panic]),
+   and neither client receives a message it answers with UnexpectedMessageReceived ([f_unexp]) *)
+Theorem C05_e2e_never_cut : forall cS cR cap sch, 1 <= cap -> cap <= 4294967295 ->
+  let w := wrun cS cR (winit cS cR cap) sch in
+  f_cut w = false /\ f_ovf w = false /\ f_panic w = None /\ f_unexp w = false.
+Proof. intros cS cR cap sch H1 H2. exact (e2e_never_cut cS cR cap sch (conj H1 H2)). Qed.
+Print Assumptions C05_e2e_never_cut.
+
+(* the same at the branch: an item of the sender that the broker is about to handle is forwarded,
+   or ignored because the receiver application has closed *)
+Theorem C05_e2e_item_forwarded_or_receiver_closed : forall cS cR cap w ch v q,
+  1 <= cap -> cap <= 4294967295 -> reachable cS cR cap w ->
+  br_ch w = Some ch -> q_sb w = SItem v :: q ->
+  (exists ch' add, chan_send_item ch cS = ItemForward ch' cR add) \/
+  (chan_send_item ch cS = ItemIgnore /\ ch_r ch = Closed /\ rv_open w = false).
+Proof. intros cS cR cap w ch v q H1 H2. exact (e2e_send_item_branch cS cR cap w ch v q (conj H1 H2)). Qed.
+Print Assumptions C05_e2e_item_forwarded_or_receiver_closed.
+
+(* in order, exactly once: what the receiver application has consumed is a prefix of what the
+   sender application has sent; until the receiver application closes, the sent sequence IS
+   consumed ++ receiver's queue ++ items on the link to the receiver ++ items on the link to the
+   broker (every item at exactly one place, in send order — also after the sender has closed);
+   when nothing is in flight everything sent has been consumed *)
+Theorem C05_e2e_in_order_exactly_once : forall cS cR cap sch, 1 <= cap -> cap <= 4294967295 ->
+  let w := wrun cS cR (winit cS cR cap) sch in
+  (exists rest, sd_sent w = rv_got w ++ rest) /\
+  (rv_open w = true -> sd_sent w = rv_got w ++ rv_queue w ++ br_items (q_br w) ++ sb_items (q_sb w)) /\
+  (rv_open w = true -> quiet w -> rv_got w = sd_sent w).
+Proof. intros cS cR cap sch H1 H2. exact (e2e_in_order cS cR cap sch (conj H1 H2)). Qed.
+Print Assumptions C05_e2e_in_order_exactly_once.
+
+(* conservation: sender-local capacity + announcements waiting in capacity_added + items on the
+   way to the broker + announcements on the way to the sender = the broker's sender_capacity (<=
+   once the sender has closed); sender_capacity <= receiver_capacity, equal at or below the
+   low-water mark 4; receiver_capacity + items on the way to / queued at the receiver + grants on
+   the way to the broker = the receiver's cur_capacity (<= once it has closed) <= max = cap *)
+Theorem C05_e2e_conservation : forall cS cR cap sch, 1 <= cap -> cap <= 4294967295 ->
+  let w := wrun cS cR (winit cS cR cap) sch in
+  rv_max w = cap /\ 1 <= rv_cur w /\ rv_cur w <= cap /\
+  forall sc rc, b_scap w = Some sc -> b_rcap w = Some rc ->
+    sd_cap w + added_sum (sd_added w) + len (sb_items (q_sb w)) + bs_adds (q_bs w) <= sc /\
+    (sd_open w = true ->
+     sd_cap w + added_sum (sd_added w) + len (sb_items (q_sb w)) + bs_adds (q_bs w) = sc) /\
+    sc <= rc /\ (sc <= 4 -> sc = rc) /\
+    rc + len (br_items (q_br w)) + len (rv_queue w) + rb_adds (q_rb w) <= rv_cur w /\
+    (rv_open w = true -> rc + len (br_items (q_br w)) + len (rv_queue w) + rb_adds (q_rb w) = rv_cur w).
+Proof. intros cS cR cap sch H1 H2. exact (e2e_conservation cS cR cap sch (conj H1 H2)). Qed.
+Print Assumptions C05_e2e_conservation.
+
+Theorem C05_e2e_window : forall cS cR cap sch, 1 <= cap -> cap <= 4294967295 ->
+  let w := wrun cS cR (winit cS cR cap) sch in
+  forall sc rc, b_scap w = Some sc -> b_rcap w = Some rc ->
+  sd_cap w + added_sum (sd_added w) + len (sb_items (q_sb w)) + len (br_items (q_br w)) + len (rv_queue w) <= cap.
+Proof. intros cS cR cap sch H1 H2. exact (e2e_window cS cR cap sch (conj H1 H2)). Qed.
+Print Assumptions C05_e2e_window.
+
+(* a capacity announcement consumed by poll_receiver_closed is not lost: the poll leaves
+   capacity + waiting announcements unchanged, empties the stream, and poll_send_ready answers
+   afterwards what it would have answered before *)
+Theorem C05_e2e_poll_closed_keeps_credit : forall cS cR cap w,
+  1 <= cap -> cap <= 4294967295 -> reachable cS cR cap w ->
+  let w' := wstep cS cR w APollClosed in
+  sd_cap w' + added_sum (sd_added w') = sd_cap w + added_sum (sd_added w) /\ sd_added w' = [] /\
+  send_ready w' = send_ready w.
+Proof. intros cS cR cap w H1 H2. exact (e2e_poll_closed_keeps_credit cS cR cap w (conj H1 H2)). Qed.
+Print Assumptions C05_e2e_poll_closed_keeps_credit.
+
+(* close requests on an established channel are confirmed with Ok (no unexpected InvalidChannel) *)
+Theorem C05_e2e_close_confirmed : forall cS cR cap sch, 1 <= cap -> cap <= 4294967295 ->
+  let w := wrun cS cR (winit cS cR cap) sch in
+  (forall r, sd_res w = KDone r -> r = R3Ok) /\ (forall r, rv_res w = KDone r -> r = R3Ok).
+Proof. intros cS cR cap sch H1 H2. exact (e2e_close_confirmed cS cR cap sch (conj H1 H2)). Qed.
+Print Assumptions C05_e2e_close_confirmed.
+
+(* no deadlock: both applications hold their ends open, nothing is in flight (links, receiver
+   queue and capacity_added empty) => poll_send_ready answers Ready(Ok(())) *)
+Theorem C05_e2e_no_deadlock : forall cS cR cap w,
+  1 <= cap -> cap <= 4294967295 -> reachable cS cR cap w ->
+  sd_open w = true -> rv_open w = true -> quiet w -> send_ready w = RdOk.
+Proof. intros cS cR cap w H1 H2. exact (e2e_no_deadlock cS cR cap w (conj H1 H2)). Qed.
+Print Assumptions C05_e2e_no_deadlock.
+
+(* progress: from EVERY reachable state with both ends open there is a finite schedule after
+   which the receiver application has consumed everything sent so far plus a further item v *)
+Theorem C05_e2e_progress : forall cS cR cap w v,
+  1 <= cap -> cap <= 4294967295 -> reachable cS cR cap w ->
+  sd_open w = true -> rv_open w = true ->
+  exists sch, rv_got (wrun cS cR w sch) = sd_sent w ++ [v].
+Proof. intros cS cR cap w v H1 H2. exact (e2e_progress cS cR cap w v (conj H1 H2)). Qed.
+Print Assumptions C05_e2e_progress.
+
+(* non-vacuity: a concrete schedule on a channel of capacity 2 between connections 1 and 2: the
+   sender fills its window, polls receiver_closed() between sends (the announcement is absorbed by
+   that poll), the receiver re-grants at the low-water mark, the sender closes; everything sent is
+   consumed in order, no flag is set, the close is confirmed *)
+Example C05_e2e_example :
+  let sch := [ASend 10; ASend 11; ASend 12; BrokerS; BrokerS; ClientR; ARecv; BrokerR; ClientS; APollClosed;
+              ASend 13; ClientR; ARecv; BrokerS; ClientR; ARecv; ACloseS; BrokerS; ClientS; ClientR; ARecv] in
+  let w := wrun 1 2 (winit 1 2 2) sch in
+  reachable 1 2 2 w /\ sd_sent w = [10; 11; 13] /\ rv_got w = [10; 11; 13] /\ rv_open w = true /\
+  sd_res w = KDone R3Ok /\ f_cut w = false /\ f_panic w = None /\ f_unexp w = false /\
+  recv_result w = GotEnd.
+Proof.
+  intros sch w. split; [apply reachable_run; constructor|]. vm_compute. repeat split; reflexivity.
+Qed.
+
+(* the hypotheses of the progress / no-deadlock theorems are satisfiable: a reachable state with
+   both ends open in which the sender is blocked (capacity 0) and something is in flight *)
+Example C05_e2e_blocked_then_ready :
+  let w := wrun 1 2 (winit 1 2 1) [ASend 7] in
+  reachable 1 2 1 w /\ sd_open w = true /\ rv_open w = true /\ send_ready w = RdPending /\
+  send_ready (wrun 1 2 w [BrokerS; ClientR; ARecv; BrokerR; ClientS]) = RdOk /\
+  quiet (wrun 1 2 w [BrokerS; ClientR; ARecv; BrokerR; ClientS; APollReady]).
+Proof.
+  intros w. split; [apply (reachable_run 1 2 1 _ [ASend 7]); constructor|]. vm_compute. repeat split; reflexivity.
 Qed.
